@@ -68,7 +68,7 @@ def main():
         "checks": checks,
         "notes": "Technique: deterministic simulation with fault injection (DESIGN.md). One integer (VERIF_SEED, default 20260929) "
                  "decides every generated history, name salt, fault plan and worker hash seed. Exit codes: 0 held (possibly with "
-                 "KNOWN-FINDING lines), 1 VIOLATION, 2 harness error. known_findings.txt lists open findings (KF-1) and the "
+                 "KNOWN-FINDING lines), 1 VIOLATION, 2 harness error. known_findings.txt lists open findings (KF-1 for C01, KF-2 for C11, KF-3 for C02) and the "
                  "defects repaired by fix: commits in /repo.",
         "not_applicable": na,
     }
